@@ -30,7 +30,7 @@ from wire import canon, err
 PID = "C12"
 RULE = ("systematic sweep: 7 schemes x 5 voltage levels x fee type None/SLP/RLM x PV bracket on short "
         "profiles with the JSON section; random profiles (4-2000 steps quick, up to 35040 thorough; "
-        "interval 5/10/15/30/60 min; W..MW scale; with/without feed-in, windows, schedules, price "
+        "interval 5/10/15/30/60 and 25/40/45/90 min (not dividing the hour); W..MW scale; with/without feed-in, windows, schedules, price "
         "lists); price sheets with every entry perturbed; boundary inputs constructed exactly "
         "(energy = 100000 kWh/a and +-eps, utilisation = 2500 h/a and +-eps, PLW significance = "
         "threshold and peak difference = 100 kW and +-eps, PV size at 10/40/100 kWp and +-eps); a "
@@ -237,7 +237,7 @@ def make_case(seed, n=None, scheme=None, vl=None, fee="rand", pv="rand", sheet="
     rnd = random.Random(seed)
     scheme = scheme or rnd.choice(SCHEMES)
     vl = vl or rnd.choice(VLS[:5])
-    minutes = minutes or rnd.choice([5, 10, 15, 30, 60])
+    minutes = minutes or rnd.choice([5, 10, 15, 30, 60, 45, 40, 25, 90])
     if n is None:
         n = rnd.choice([4, 5, 7, 8, 12, 24, 48, 96, 97, 192, 288, 500, 672, 1000, 2000])
     if fee == "rand":
@@ -1342,7 +1342,7 @@ def eval_csv(case):
     from spice_ev import costs
     rnd = random.Random(case["seed"])
     n = rnd.choice([4, 8, 24, 96, 288])
-    minutes = rnd.choice([5, 10, 15, 30, 60])
+    minutes = rnd.choice([5, 10, 15, 30, 60, 45, 40])
     scale = rnd.choice([1, 20, 300, 5000])
     cols = {}
     mil = lambda lo, hi: F(rnd.randint(int(lo * 1000), int(hi * 1000)), 1000)
